@@ -350,6 +350,13 @@ def _pred(f, rel, rhs, e):
         if sign == -1:
             rhs = _uncast(n)
             offs = []
+    # ... and with a constant on both sides: strong(S) - n == c  =>  strong(S) == n + c
+    if offs and len(offs) == 1 and rhs[0] == "c" and isinstance(rhs[1], int) and rel in ("==", "!="):
+        sign, n = offs[0]
+        n = _uncast(n)
+        if isinstance(n, tuple) and n[0] == "c" and isinstance(n[1], int):
+            rhs = ("c", rhs[1] - sign * n[1], rhs[2])
+            offs = []
     return {"S": base, "field": field, "rel": rel, "rhs": rhs, "offs": offs, "forced": forced, "exp": e.exp,
             "event": e}
 
